@@ -51,6 +51,7 @@ META = {
 H = vlib.VERIF / "harness" / "C11"
 INF, NAN = math.inf, math.nan
 S26, SE, EPS = 2.0 ** 26, 2.0 ** -26, 2.0 ** -52
+EXCLUDED = {}
 K_TOL = {8: 4.0, 4: 4.0}          # tolerance of the accuracy tie in units of eps*|value| (parameter of the check, not of a theorem)
 
 
@@ -511,7 +512,7 @@ def acc_eval(ctx, binary, width, pts, timeout=900):
     return ret
 
 
-def in_domain(fn, a):
+def in_domain(fn, a, width=8):
     """finite arguments in the function's domain, no negative zero where the sign of zero selects the branch cut side"""
     if not all(math.isfinite(v) for v in a):
         return False
@@ -523,8 +524,15 @@ def in_domain(fn, a):
         return abs(a[0]) <= 1
     if fn == "log1p":
         return a[0] >= -1
-    if fn == "c2s" and not math.isfinite(math.hypot(a[0], a[1]) * (1 + 2.0 ** -20)):
-        return False     # the intermediate radius sqrt(x^2+y^2) itself is not representable
+    if fn == "c2s":
+        r = math.hypot(a[0], a[1])
+        if not math.isfinite(r * (1 + 2.0 ** -20)):
+            return False     # the intermediate radius sqrt(x^2+y^2) itself is not representable (overflow)
+        if 0 < r < (2.0 ** -1022 if width == 8 else 2.0 ** -126):
+            # ... or only as a subnormal number: the elevation atan2(z, r) inherits r's large relative rounding error in
+            # BOTH configurations (c2s(5e-324, 5e-324, 5e-324): elevation pi/4 instead of 0.6155).  Counted in the evidence.
+            EXCLUDED["c2s: intermediate radius subnormal"] = EXCLUDED.get("c2s: intermediate radius subnormal", 0) + 1
+            return False
     if fn in ("p2c", "s2c"):
         return all(abs(v) <= 1e6 for v in a[1:])   # huge angles: accuracy of libm's argument reduction, not liba's code
     return True
@@ -609,12 +617,15 @@ def case_in_bounds(c):
 
 
 def run(ctx):
+    EXCLUDED.clear()
     ctx.prove()
     ctx.assumptions += ["floating-point accuracy is measured on samples against mpmath (tolerance K*eps*|value|, K in the coverage), not proved",
                         "bit-exact tie: libm entry points are replaced by the same fixed substitute functions on both sides",
                         "C built with gcc -O2 -ffp-contract=off (binary64/binary32 operation by operation), AddressSanitizer on the array helpers",
                         "the model is of the a_real=double build; the float build is covered by the accuracy tie only",
-                        "signed zeros, infinities and NaN arguments are compared bit for bit with the model but are outside the accuracy statement"]
+                        "signed zeros, infinities and NaN arguments are compared bit for bit with the model but are outside the accuracy statement",
+                        "cart2sph is outside the accuracy statement when the intermediate radius sqrt(x^2+y^2) overflows or is a non-zero "
+                        "subnormal number (its rounding error then dominates the elevation angle in both configurations)"]
     srcs = ["math.c", "a.c"]
     bx = ctx.cc("drv_bx", [H / "drv.c", fcorr.LIBM_SUBST], repo_srcs=srcs, mode="num", have=0, real=8,
                 extra=fcorr.WRAP_FLAGS + ["-fsanitize=address", "-g"])
@@ -705,7 +716,7 @@ def run(ctx):
         for fn, a in extra + pts:
             a2 = tuple(f32(v) for v in a) if real == 4 else tuple(a)
             base = "norm2" if fn == "hypot" else fn
-            if in_domain(base, a2):
+            if in_domain(base, a2, real):
                 P.append((fn, a2))
         res = acc_eval(ctx, b, real, P)
         nacc += len(P)
@@ -740,6 +751,7 @@ def run(ctx):
     ctx.cov["correspondence_mismatches"] = len(mism)
     ctx.cov["harness_crashes"] = len(crashes)
     ctx.cov["accuracy_evaluations"] = nacc
+    ctx.cov["accuracy_points_excluded"] = dict(EXCLUDED)
     ctx.cov["accuracy_tolerance_K_eps"] = {"double": K_TOL[8], "float": K_TOL[4]}
     ctx.cov["accuracy_worst_eps"] = {"%s/%s/%s" % (fn, "libm" if have else "fallback", "double" if real == 8 else "float"):
                                      (round(e, 2) if e != INF else "inf") for (fn, have, real), (e, a) in sorted(worst.items())}
